@@ -16,6 +16,9 @@ from mdsa.astutil import call_attr, call_recv, kwarg, local_calls, norm, store_t
 from mdsa.cfg import walk_local
 from mdsa.loader import AnalysisError
 
+from mdsa import match as MM
+
+from .sem import F
 from .common import Ctx, local_defs
 
 EXPLANATION = (
@@ -103,8 +106,15 @@ def r1_metaclass_chain(P, rep, ctx):
     we = dz.nested.get("wrapped_encoder")
     if we is None:
         raise AnalysisError("_dynamize_encoder.wrapped_encoder not found")
-    t = norm(we.node)
-    ok = "return encoder_func(obj)" in t and "except TypeError" in t and "_reg_json_encoders.get(type(obj))" in t and "return enc(obj)" in t and "raise e" in t
+    wf = F(ctx, we)
+    ob, ef = we.params[0], dz.params[0]
+    rets = [(i, wf.x_at(i, v)) for i, v in wf.returns() if v is not None]
+    first = [i for i, t_ in rets if t_ == f"{ef}({ob})"]
+    found = wf.tests(f"_reg_json_encoders.get(type({ob}))", f"_reg_json_encoders.get(type({ob})) is not None", f"type({ob}) in _reg_json_encoders")
+    second = [i for i, t_ in rets if t_ in (f"_reg_json_encoders.get(type({ob}))({ob})", f"_reg_json_encoders[type({ob})]({ob})")]
+    handlers = [n for n in wf.g.nodes if n.kind == "except"]
+    ok = (bool(first) and bool(found) and bool(second) and len(handlers) == 1 and norm(handlers[0].stmt.type) == "TypeError" and all(i in wf.g.reach([handlers[0].idx]) for i in second)
+          and wf.all_hit_before(second, edges=found) and all(wf.hit_before(wf.g.exit, nodes=second, src_edge=e) for e in found) and wf.refuses(wf.neg(found)) and set(i for i, t_ in rets) == set(first) | set(second))
     rep.check(ok, "C12.R1", we.qual, "dynamic encoder: default first, on TypeError the registered encoder of type(obj), else re-raise", we.loc(), construct="wrapped_encoder", message="wrapped_encoder does not fall back to _reg_json_encoders.get(type(obj)) on TypeError")
     rets = [norm(x.value) for x in walk_local(dz.node) if isinstance(x, ast.Return)]
     rep.check(rets == ["wrapped_encoder"], "C12.R1", dz.qual, "_dynamize_encoder returns the wrapper", dz.loc(), construct="_dynamize_encoder return", message=f"_dynamize_encoder returns {rets}")
@@ -228,9 +238,11 @@ def r3_dump_defaults(P, rep, ctx):
     fi = P.func(f"{B}._mod_def_dump_args")
     g = ctx.cfg(fi)
     for key in ("by_alias", "exclude_none"):
-        tests = [t.idx for t in g.nodes if t.kind == "test" and norm(t.exprs[0]) == f"'{key}' not in kwargs"]
-        sets = [n.idx for n in g.nodes if n.kind == "stmt" and norm(n.stmt) == f"kwargs['{key}'] = True"]
-        ok = bool(tests) and bool(sets) and all(g.every_path_passes(sets, g.exit, src=t, src_label="T") for t in tests) and all(any(g.edge_dominates(t, "T", s) for t in tests) for s in sets)
+        f = F(ctx, fi)
+        kw = fi.params[0]
+        absent = f.tests(f"'{key}' not in {kw}")
+        sets = [i for i, v, b in f.stores(f"{kw}['{key}']") if norm(v) == "True"] + f.calls(f"{kw}.setdefault('{key}', True)")
+        ok = bool(sets) and (bool(f.calls(f"{kw}.setdefault('{key}', True)")) and f.hit_before(g.exit, nodes=sets) or (bool(absent) and f.all_hit_before(sets, edges=absent) and all(f.hit_before(g.exit, nodes=sets, src_edge=e) for e in absent)))
         rep.check(ok, "C12.R3", fi.qual, f"dump default {key}=True unless given explicitly", fi.loc(), construct=f"default {key}", message=f"_mod_def_dump_args does not default {key} to True (only when the caller did not pass it)")
     rets = [norm(x.value) for x in walk_local(fi.node) if isinstance(x, ast.Return)]
     rep.check(rets == ["kwargs"], "C12.R3", fi.qual, "returns the adjusted kwargs", fi.loc(), construct="_mod_def_dump_args return", message=f"_mod_def_dump_args returns {rets}")
